@@ -1,7 +1,7 @@
 (* C15 - simpliciality measures. *)
 From Coq Require Import String ZArith QArith List Bool.
 From XV Require Import Base.Label Base.LSet Base.ODict Base.Attr Base.Outcome Model.Hypergraph Model.Hodge
-  Model.Simpliciality Proofs.TrieProofs Proofs.SimplicialityMore Proofs.HgInv Proofs.SortProofs Proofs.QuotCount Proofs.EditDistance Proofs.HgStep.
+  Model.Simpliciality Proofs.TrieProofs Proofs.SimplicialityMore Proofs.HgInv Proofs.SortProofs Proofs.QuotCount Proofs.EditDistance Proofs.HgStep Proofs.ClosedScores Proofs.FaceEditRange.
 Import ListNotations.
 
 (* the prefix tree answers exactly: is the (sorted) word one of the (sorted) inserted words *)
@@ -73,6 +73,31 @@ Example C15_nonvacuous :
   oq_eqb (mean_face_edit_distance 2 true true s) (Some (2 # 3)%Q) = true.
 Proof. vm_compute. repeat split. Qed.
 Print Assumptions C15_nonvacuous.
+
+(* the mean face edit distance: 0 (score 1) on downward-closed hypergraphs, and a share when normalised *)
+Theorem C15_face_distance_zero_on_closed : forall s k excl, (1 <= k)%nat -> Inv s -> labels_orderable s ->
+  (forall e x, In e (map snd (max_edges s (k + b2n excl))) -> NoDup x -> (forall a, In a x -> In a e) ->
+               (k <= length x)%nat -> exists i w, In (i, w) (h_edge s) /\ seteq x w) ->
+  forall nm q, mean_face_edit_distance k excl nm s = Some q -> (q == 0)%Q.
+Proof. exact mfed_closed_zero. Qed.
+Print Assumptions C15_face_distance_zero_on_closed.
+
+Theorem C15_face_distance_range : forall k excl s q, (1 <= k)%nat ->
+  mean_face_edit_distance k excl true s = Some q -> (0 <= q /\ q <= 1)%Q.
+Proof. exact mfed_normalised_range. Qed.
+Print Assumptions C15_face_distance_range.
+
+(* the normaliser 2^n - 2 - sum_{1 <= i < k} C(n, i) is the number of node subsets of k .. n-1 nodes *)
+Theorem C15_max_subfaces_counts : forall (f : list lbl) k, (1 <= k <= length f)%nat ->
+  max_number_of_subfaces k (length f) = Z.of_nat (length (subsets_between f k (length f - 1))).
+Proof. exact max_subfaces_counts. Qed.
+Print Assumptions C15_max_subfaces_counts.
+
+(* the simplicial fraction is 1 on downward-closed hypergraphs *)
+Theorem C15_fraction_one_on_closed : forall s k excl, Inv s -> labels_orderable s ->
+  closed_above s k (k + b2n excl) -> forall q, simplicial_fraction k excl s = Some q -> (q == 1)%Q.
+Proof. exact fraction_closed_one. Qed.
+Print Assumptions C15_fraction_one_on_closed.
 
 (* the hypotheses of the counting theorems are met by a reachable state, on which the count is not zero *)
 Example C15_count_premises_met :
